@@ -12,6 +12,7 @@ fn main() {
         engine::install_quiet_panic_hook();
         let rc = match id.as_str() {
             "C17" => vh::props::c17::child_forget(&args[3]),
+            "C01" => vh::props::c01::child_subscriber(&args[3]),
             _ => 2,
         };
         std::process::exit(rc);
